@@ -345,15 +345,16 @@ def stepCore (cfg : Cfg) (g : GState) : Op → R (GState × Out)
     noPrepared g.s
     if !(n == 1 || n == 2 || n == 4 || n == 8 || n == 16) then throw (.contract "unsupported minimum alignment")
     if n < g.s.minAlign then
-      pure ({ g with s := { g.s with frames := .alignedLower g.s.minAlign :: g.s.frames, minAlign := n } }, .unit)
+      pure ({ g with s := { g.s with frames := .alignedLower g.s.minAlign g.s.cur :: g.s.frames, minAlign := n } }, .unit)
     else
       let s' ← alignTo cfg g.s n
       pure ({ g with s := { s' with frames := .alignedRaise g.s.minAlign :: g.s.frames, minAlign := n } }, .unit)
   | .alignedExit => do
     noPrepared g.s
     match g.s.frames with
-    | .alignedLower outer :: rest =>
-      let s' ← alignGuardDrop cfg g.s outer
+    | .alignedLower outer start :: rest =>
+      let s1 ← alignGuardDrop cfg g.s outer
+      let s' ← alignChunkAt cfg s1 outer start
       pure ({ g with s := { s' with frames := rest, minAlign := outer } }, .unit)
     | .alignedRaise outer :: rest =>
       pure ({ g with s := { g.s with frames := rest, minAlign := outer } }, .unit)
